@@ -1,6 +1,7 @@
 (** Prop_C12.v -- C12: expiry never removes a channel that is active or has a subscriber. *)
 From MW Require Import Base Store Monad Usage Server Websocket Service Inv Obs
-     StepFacts SweepFacts Corollaries Inst_Params.
+     StepFacts SweepFacts Corollaries Inst_Params Inst_Timer.
+From MWGen Require GenParams.
 Local Open Scope list_scope.
 
 (** the complete effect of a non-faulty sweep at time [now s] (cut-off
